@@ -16,11 +16,11 @@ Variable o : oracle.
 Variable f : string.
 Hypothesis f_nonempty : String.eqb f "" = false.
 
-Notation clean := (ParserScope.clean f).
+Notation clean := (Scope.clean f).
 Notation items_clean := (ParserScope.items_clean f).
-Notation sci := (ParserScope.sci f).
+Notation sci := (Scope.sci f).
 Notation sci_item := (ParserScope.sci_item f).
-Notation scope := (ParserScope.scope f).
+Notation scope := (Scope.scope f).
 
 Ltac shape H :=
     repeat match type of H with
@@ -52,7 +52,7 @@ Ltac ic_hyps :=
   | H : items_clean (IExp _ :: _) |- _ => apply ic_inv_e in H; destruct H as [? H]
   | H : items_clean (ITok _ :: _) |- _ => apply ic_inv_t in H
   end.
-Ltac rw_clean := repeat match goal with Hx : clean ?x = true |- context [ParserScope.clean f ?x] => rewrite Hx end.
+Ltac rw_clean := repeat match goal with Hx : clean ?x = true |- context [Scope.clean f ?x] => rewrite Hx end.
 Ltac fin H := inversion H; subst; apply ic_cons_e; [|apply ic_nil].
 
 Lemma clean_bin op a b : clean (empty_e (VExp a) op (VExp b)) = clean a && clean b. Proof. reflexivity. Qed.
@@ -176,8 +176,8 @@ Definition tokens_clean (ts : list token) : Prop := forall t, In t ts -> clean (
 Definition cfg_ok (c : cfg) : Prop :=
   ParserShape2.cfg_wf c /\ items_clean (rs c) /\ (match pend c with Some l => clean l = true | None => True end) /\ tokens_clean (toks c).
 
-Lemma scw_nonleaf e : is_leaf_op (e_op e) = false -> ParserLay.scw f e = e.
-Proof. intros H. unfold ParserLay.scw. rewrite H. destruct (String.eqb f ""); reflexivity. Qed.
+Lemma scw_nonleaf e : is_leaf_op (e_op e) = false -> Build.scw f e = e.
+Proof. intros H. unfold Build.scw. rewrite H. destruct (String.eqb f ""); reflexivity. Qed.
 
 Lemma sci_parse_literal t : sci (parse_literal o t) = parse_literal o t.
 Proof.
@@ -202,9 +202,9 @@ Proof.
     + destruct r as [|[t|e] [|? ?]]; try reflexivity. cbn [map sci_item].
       rewrite (ParserScope.sci_op f). rewrite f_nonempty. cbn [negb]. rewrite andb_true_r.
       assert (Hb : is_leaf_op (e_op e) && negb (String.eqb "" "") = false) by (rewrite andb_false_r; reflexivity).
-      rewrite Hb. cbn [map_res]. unfold ParserScope.scope.
+      rewrite Hb. cbn [map_res]. unfold Scope.scope.
       destruct (is_leaf_op (e_op e)) eqn:L.
-      * unfold eq_. rewrite ParserShape.expr_new_dfcol. unfold ParserLay.scw. rewrite f_nonempty, (ParserScope.sci_op f), L. reflexivity.
+      * unfold eq_. rewrite ParserShape.expr_new_dfcol. unfold Build.scw. rewrite f_nonempty, (ParserScope.sci_op f), L. reflexivity.
       * rewrite scw_nonleaf by (rewrite (ParserScope.sci_op f); exact L). reflexivity.
     + destruct (should_shift n (hd eof tk)) as [[|]|s]; [| exact HR | reflexivity].
       destruct (is_terminal (hd eof tk)).
@@ -259,9 +259,9 @@ Proof.
 Qed.
 
 (* ---------- validation does not see the scoping ---------- *)
-Lemma validate_scw e : validate (ParserLay.scw f e) = validate e.
+Lemma validate_scw e : validate (Build.scw f e) = validate e.
 Proof.
-  unfold ParserLay.scw. rewrite f_nonempty. destruct (is_leaf_op (e_op e)) eqn:L; [|reflexivity].
+  unfold Build.scw. rewrite f_nonempty. destruct (is_leaf_op (e_op e)) eqn:L; [|reflexivity].
   destruct e as [l op r b z]. cbn in L.
   destruct op; try discriminate; cbn [should_use_like e_op];
     cbn [validate validate_node e_op e_left e_right empty_e lit is_literal_expr is_leaf_op is_literal is_nil is_bound andb negb];
@@ -278,11 +278,11 @@ Qed.
 Lemma validate_sci : forall n e, esize e <= n -> validate (sci e) = validate e.
 Proof.
   induction n as [|n IH]; intros e Hs; [destruct e; cbn in Hs; lia|].
-  assert (IHs : forall x, esize x <= n -> validate (ParserLay.scw f (sci x)) = validate x).
+  assert (IHs : forall x, esize x <= n -> validate (Build.scw f (sci x)) = validate x).
   { intros x Hx. rewrite validate_scw. apply IH. exact Hx. }
   destruct e as [l op r b z].
   destruct l as [| | | | | | x | |]; try (destruct op; reflexivity).
-  destruct op; cbn [ParserScope.sci]; try reflexivity.
+  destruct op; cbn [Scope.sci]; try reflexivity.
   all: try (destruct r as [| | | | | | y | |]; try reflexivity; cbn in Hs;
             cbn [validate validate_node e_op e_left e_right is_nil is_bound negb andb];
             rewrite ?lit_expr_sci, ?(ParserScope.sci_op f), ?IHs, ?IH by lia; reflexivity).
@@ -296,7 +296,7 @@ Proof.
 Qed.
 
 Lemma validate_scope e : validate (scope e) = validate e.
-Proof. unfold ParserScope.scope. rewrite validate_scw. apply (validate_sci (esize e)). lia. Qed.
+Proof. unfold Scope.scope. rewrite validate_scw. apply (validate_sci (esize e)). lia. Qed.
 
 (* C11: with a default field that does not otherwise occur, the result is the plain result with its bare
    terms scoped; acceptance is the same. *)
